@@ -695,6 +695,21 @@ def expected_read(stub):
   return out if changed[0] else None
 
 
+def first_difference(a, b, path=""):
+  """Where two normal forms (nested lists of norm()) first differ: 'path: a-side != b-side'."""
+  if a == b:
+    return ""
+  if isinstance(a, list) and isinstance(b, list) and len(a) == len(b):
+    head = a[0] if a and isinstance(a[0], str) else ""
+    label = head
+    if head in ("func", "class", "const", "alias", "param") and len(a) > 1 and isinstance(a[1], str):
+      label = "%s %s" % (head, a[1])
+    for k, (x, y) in enumerate(zip(a, b)):
+      if x != y:
+        return first_difference(x, y, (path + "/" if path else "") + (label or "[]") + "[%d]" % k)
+  return "%s: %s printed, %s read back" % (path or ".", json.dumps(a)[:80], json.dumps(b)[:80])
+
+
 def dunder_cells(ast):
   """For every function with a __dunder__ name below `ast`:
   '<name>/<KIND>/<first parameter name or ->/<c|m>/<number of signatures>/<flags>' (c: in a class)."""
